@@ -818,9 +818,29 @@ func (p *parser) getDeclForDefinition(nameTok *token.Token) *ast.FuncDecl {
 func isAliasParam(t token.Token) bool   { return t.Type == token.ALIAS_PARAMETER } // helper to check for parameters
 func isIllegalToken(t token.Token) bool { return t.Type == token.ILLEGAL }         // helper to check for illegal tokens
 
+// an alias must contain something besides a single parameter,
+// otherwise parsing its argument would match the alias again without end
+func (p *parser) validateAliasHasWord(aliasTokens []token.Token) *ddperror.Error {
+	words := countElements(aliasTokens, func(t token.Token) bool { return t.Type != token.ALIAS_PARAMETER && t.Type != token.EOF })
+	if words == 0 && countElements(aliasTokens, isAliasParam) == 1 {
+		err := ddperror.New(ddperror.SEM_MALFORMED_ALIAS, ddperror.LEVEL_ERROR,
+			token.NewRange(&aliasTokens[len(aliasTokens)-1], &aliasTokens[len(aliasTokens)-1]),
+			"Ein Alias darf nicht nur aus einem Parameter bestehen",
+			p.module.FileName,
+		)
+		return &err
+	}
+	return nil
+}
+
 // helper for funcDeclaration to check that every parameter is provided exactly once
 // and that no ILLEGAL tokens are present
 func (p *parser) validateFunctionAlias(aliasTokens []token.Token, params []ast.ParameterInfo) *ddperror.Error {
+	// an alias that is nothing but a single parameter matches every expression, also its own argument
+	if err := p.validateAliasHasWord(aliasTokens); err != nil {
+		return err
+	}
+
 	// validate that the alias contains as many parameters as the function
 	if count := countElements(aliasTokens, isAliasParam); count != len(params) {
 		err := ddperror.New(ddperror.SEM_ALIAS_BAD_ARGS, ddperror.LEVEL_ERROR,
@@ -888,6 +908,10 @@ func (p *parser) validateFunctionAlias(aliasTokens []token.Token, params []ast.P
 // fields should not contain bad decls
 // returns wether the alias is valid and its arguments
 func (p *parser) validateStructAlias(aliasTokens []token.Token, fields []*ast.VarDecl) (*ddperror.Error, map[string]ddptypes.Type) {
+	if err := p.validateAliasHasWord(aliasTokens); err != nil {
+		return err, nil
+	}
+
 	// validate that the alias contains no more parameters than the struct
 	if count := countElements(aliasTokens, isAliasParam); count > len(fields) {
 		err := ddperror.New(ddperror.SEM_ALIAS_BAD_ARGS, ddperror.LEVEL_ERROR,
